@@ -14,13 +14,14 @@
 (*         of them when there are that many);  px  di: <<x, y, colour>> list  *)
 EXTENDS EGImage
 
-\* ImageRaw::new(data of length it[1]) reported ok = it[2] (0/1) and, when not ok, the expected
-\* size it[3]: accepted exactly when the length is the padded row length times the height
+\* ImageRaw::new(data of length it[1]) reported ok = it[2] (0/1): accepted exactly when the length
+\* is the padded row length times the height.  (The expected_data_size it[3] carried by the error
+\* is not part of the property text; Trace_C09 reports a wrong one as DRIFT only.)
 NewFails(bpp, w, h, it) ==
   LET want == ExpectedLen(w, h, bpp) IN
        (IF it[2] = 1 /\ it[1] # want THEN {"new_accepts_wrong_length"} ELSE {})
   \cup (IF it[2] = 0 /\ it[1] = want THEN {"new_rejects_required_length"} ELSE {})
-  \cup (IF it[2] = 0 /\ it[3] # want THEN {"new_reports_wrong_expected_size"} ELSE {})
+NewExpectedOK(bpp, w, h, it) == it[2] = 0 => it[3] = ExpectedLen(w, h, bpp)
 
 \* probes <<x, y, option>> of pixel(): None exactly outside the box, the layout value inside
 PixelFails(img, probes) ==
